@@ -38,4 +38,17 @@ TEXT["C18"] = dict(
         "field codecs inside fixed-layout payloads are checked by the harness, not proved; the tie is sampling. One "
         "genuine defect (960 tiles not inverting) was repaired in /repo."),
   technique="Lean 4 proof (kernel-evaluated finite domain on a soft-float model, chunk-framing induction) + differential correspondence")
+TEXT["C03"] = dict(
+  text=("Machine-checked Lean 4 theorems about the compression front end and the decompressor's acceptance arithmetic: "
+        "the stored form is never longer than the input for any codec output; the reader's size-only raw-vs-compressed "
+        "rule recovers the data whenever the codec inverts; a closed form of everything validate_file_bounds / adaptive "
+        "limits / pattern detection / +-10% / monitor accept; the in-tree sparse decoder is correct on every well-formed "
+        "token stream. The statement 'the compressor's own output is always accepted' is FALSE of the code: proved as "
+        "_partial under the ratio hypothesis, with a kernel-checked witness that is replayed on the implementation "
+        "(known finding D2). Tied to the code by differential execution of framing decisions, selector support, "
+        "acceptance outcomes and sparse decoding, and by a round-trip / never-expands oracle over all selectors."),
+  note=("third-party codecs are parameters (round trip sampled, not proved); the sparse compressor and ADPCM are "
+        "observed only. Known findings D2 (ratio limits reject own output) and D25 (PKWare output undecodable); one "
+        "defect repaired (PKWare ASCII-mode panic)."),
+  technique="Lean 4 proof (arithmetic closed form, decoder induction) + differential correspondence + round-trip oracle")
 NA = {}
